@@ -90,6 +90,18 @@ def gen_cases(rng, tier):
             else:
                 raise RuntimeError("no valid case for shape")
     n_shape = len(items)
+    # every other sample format (instances over the C03 sample model): random shapes of depth <= 3
+    nall = 252 if tier == "quick" else 3500
+    for k in range(nall):
+        r = rng.fork(f"c05_all_{k}")
+        fm = S.GEN_FMTS[k % len(S.GEN_FMTS)]
+        for attempt in range(40):
+            g = S.Gen(r, fm, wide=(attempt == 0 and r.chance(1, 6)))
+            g.lens = list(range(0, 8))
+            it = dict(fmt=fm, bases=[], ops=[one_op(r, g, fm, lambda lg: g.tree(3, lg, p_delay=5), r.choice(kinds))])
+            if S.valid(it) and S.float_cost(S.op_tree(it["ops"][0]), fm) <= 60:
+                items.append(S.build(it))
+                break
     # random depth-4 shapes
     n4 = 200 if tier == "quick" else 4000
     for k in range(n4):
@@ -177,7 +189,7 @@ def gen_cases(rng, tier):
                     continue
                 lens[key] = lens.get(key, 0) + 1
     return items, {"exhaustive_shape_cases": n_shape, "shapes_depth_le_3": len(shapes), "draws_per_shape": reps,
-                   "random_depth4_cases": n4, "by_ref_sequences": nseq, "clone_sweep_cases": nsweep,
+                   "random_depth4_cases": n4, "all_sample_format_cases": nall, "by_ref_sequences": nseq, "clone_sweep_cases": nsweep,
                    "clone_sweep_ops": n_sweep_ops, "source_lengths": lens}
 
 
